@@ -3,7 +3,7 @@
    amplitudes_true_Q, mean_amps_Q, waveform_durations_Q, get_depths_Q are the model of Model.v (the
    operation sequence of phylib's code) instantiated with exact rational operations. *)
 From Coq Require Import ZArith QArith List Bool Sorted Lia.
-From PV Require Import C09.Model C09.Spec C09.Proofs C09.Proofs2 C09.Proofs3 C09.Proofs4.
+From PV Require Import C09.Model C09.Spec C09.Proofs C09.Proofs2 C09.Proofs3 C09.Proofs4 C09.Proofs5.
 Import ListNotations.
 Open Scope Z_scope.
 
@@ -113,6 +113,33 @@ Theorem C09_depths_none : forall (nbatch : Z) (i : depth_in),
 Proof. exact depths_none_thm. Qed.
 Print Assumptions C09_depths_none.
 
+(* Why the repair was needed: np.bincount WITHOUT minlength (the code before the fix commit) has only
+   max(id) + 1 bins, fewer than the number of waveforms as soon as the highest id has no spike -- the
+   division against the per-waveform amplitudes then cannot be the statement's "one value per id". *)
+Theorem C09_minlength_needed : exists i : amp_in,
+  wf_amp i = true /\ (forall s, In s (ai_spikes i) -> s < ai_nwav i) /\
+  (length (bincount (ai_spikes i) 0) < length (ai_data i))%nat /\
+  length (amp_counts i) = length (ai_data i).
+Proof.
+  exists (mk_amp_in [ [[1; 0]; [-2; 3]] ; [[0; 5]; [4; -1]] ; [[7; 7]; [7; 0]] ] [[1; 2]; [0; -1]] [1; 0; 1; 0] [2; 3; 4; 5] 3).
+  split; [vm_compute; reflexivity|]. split; [cbn; intros s [<-|[<-|[<-|[<-|[]]]]]; reflexivity|].
+  split; vm_compute; [lia|reflexivity].
+Qed.
+Print Assumptions C09_minlength_needed.
+
+(* the boolean checkers that Corr.v evaluates on the implementation's outputs imply the declarative statements *)
+Theorem C09_checker_sound_channels : forall (nc : nat) (data : list mat) (out : list Z),
+  data_ok nc data = true -> peak_channels_b nc data out = true -> Spec_channels nc data out.
+Proof. exact peak_channels_b_sound. Qed.
+Print Assumptions C09_checker_sound_channels.
+
+Theorem C09_checker_sound_nan : forall (i : amp_in) (finite : list bool),
+  nan_iff_empty_b i finite = true ->
+  length finite = length (ai_data i) /\
+  forall n, (n < length (ai_data i))%nat -> (nth n finite true = false <-> ~ In (Z.of_nat n) (ai_spikes i)).
+Proof. exact nan_iff_empty_b_sound. Qed.
+Print Assumptions C09_checker_sound_nan.
+
 (* ---- non-vacuity: concrete, non-trivial instances ---- *)
 Definition ex_in : amp_in :=
   mk_amp_in [ [[1; 0]; [-2; 3]] ; [[0; 5]; [4; -1]] ; [[7; 7]; [7; 0]] ]   (* three 2x2 templates *)
@@ -137,6 +164,10 @@ Qed.
 Example C09_ex_mean_amps :
   mean_amps_Q [3; 0; 3; 3] [2; 7; 4; 6] = Some [Some (inject_Z 7 / inject_Z 1); Some (inject_Z 12 / inject_Z 3)]%Q.
 Proof. vm_compute. reflexivity. Qed.
+Example C09_ex_checkers :
+  peak_channels_b 3 [ [[0; 5; 1]; [2; 0; 6]] ] [1] = true /\ peak_channels_b 3 [ [[0; 5; 1]; [2; 0; 6]] ] [2] = false /\
+  nan_iff_empty_b ex_in [true; true; false] = true /\ nan_iff_empty_b ex_in [true; true] = false.
+Proof. vm_compute. repeat split. Qed.
 Example C09_ex_channels :     (* ties: channels 1 and 2 both have peak-to-peak 5: the first wins *)
   channels 3 [ [[0; 5; 1]; [2; 0; 6]] ] = Some [1] /\
   waveform_durations_Q 3 [ [[0; 5; 1]; [2; 0; 6]] ] (Some (inject_Z 30000)) =
